@@ -60,4 +60,6 @@ def main : IO Unit := do
     loop h out ({} : Conv.DState) Conv.driverStep {}
   | some (.list [.atom "model", .atom "setters"]) =>
     loop h out () Setters.driverStep ()
+  | some (.list [.atom "model", .atom "parents"]) =>
+    loop h out ({} : Parents.Heap) Parents.driverStep {}
   | _ => out.putStrLn "unknown-model"
